@@ -666,7 +666,22 @@ pub struct SwapArgs {
     pub a_to_b: bool,
 }
 
+fn oracle_writable(mut ix: Ix, oracles: &[Pubkey]) -> Ix {
+    // pools with adaptive fees need the oracle writable; harmless otherwise
+    for m in ix.accounts.iter_mut() {
+        if oracles.contains(&m.pubkey) {
+            m.is_writable = true;
+        }
+    }
+    ix
+}
+
 pub fn swap(s: &SwapAccounts, a: &SwapArgs) -> Ix {
+    let ix = swap_inner(s, a);
+    oracle_writable(ix, &[s.pool.oracle])
+}
+
+fn swap_inner(s: &SwapAccounts, a: &SwapArgs) -> Ix {
     mk(
         wa::Swap {
             token_program: tok(),
@@ -760,6 +775,11 @@ pub struct TwoHopArgs {
 }
 
 pub fn two_hop_swap(t: &TwoHopAccounts, a: &TwoHopArgs) -> Ix {
+    let ix = two_hop_swap_inner(t, a);
+    oracle_writable(ix, &[t.one.oracle, t.two.oracle])
+}
+
+fn two_hop_swap_inner(t: &TwoHopAccounts, a: &TwoHopArgs) -> Ix {
     mk(
         wa::TwoHopSwap {
             token_program: tok(),
